@@ -49,6 +49,9 @@ MUTANTS = [
     ("C06", "convertible-tensor-eq-ignores-kind", "einx/_src/tracer/signature/classical/tensor.py",
      "            return self.origin == other.origin and _freeze_value(self.concrete) == _freeze_value(other.concrete) and self.shape == other.shape", "            return self.origin == other.origin and self.shape == other.shape",
      [("einx/_src/tracer/signature/classical/tensor.py", "        return hash(self.shape) + hash(_freeze_value(self.concrete))", "        return hash(self.shape)")]),
+    ("C13", "convertible-tensor-eq-ignores-kind", "einx/_src/tracer/signature/classical/tensor.py",
+     "            return self.origin == other.origin and _freeze_value(self.concrete) == _freeze_value(other.concrete) and self.shape == other.shape", "            return self.origin == other.origin and self.shape == other.shape",
+     [("einx/_src/tracer/signature/classical/tensor.py", "        return hash(self.shape) + hash(_freeze_value(self.concrete))", "        return hash(self.shape)")]),
     ("C06", "with-exit-skipped-on-exception", B, "    def __exit__(self, exc_type, exc_value, traceback):\n        self.registry.exit(self.backend)",
      "    def __exit__(self, exc_type, exc_value, traceback):\n        if exc_type is None:\n            self.registry.exit(self.backend)"),
     ("C06", "dependon-not-restored-on-exception", "einx/_src/frontend/api.py",
